@@ -474,6 +474,29 @@ def s6(proj, rep, modules=None):
     return n
 
 
+_BIGINT_CALLEES = ('numqi.group.spf2.get_number', 'numqi.group.spf2._get_number_internal', 'math.factorial', 'math.comb', 'scipy.special.factorial')
+
+
+def _bigint_source(proj, fi, e, at, depth=0):
+    """name of an arbitrary-precision integer source that expression `e` derives from, else None"""
+    from ..dataflow import reaching_defs
+    if depth > 3:
+        return None
+    for x in ast.walk(e):
+        if isinstance(x, ast.Call):
+            r = resolve_callee(proj, fi.module, x)
+            q = r.qual if r.kind in ('func', 'external') else ''
+            if q in _BIGINT_CALLEES:
+                return q
+        if isinstance(x, ast.Name):
+            for v, st, p in reaching_defs(fi.node, x.id, at):
+                if v != 'param' and isinstance(v, ast.AST):
+                    b = _bigint_source(proj, fi, v, st, depth + 1)
+                    if b:
+                        return b
+    return None
+
+
 def s5(proj, rep, modules=None):
     rep.rule('S5', RULES['S5'])
     n = 0
@@ -498,6 +521,14 @@ def s5(proj, rep, modules=None):
                 continue
             inclusive = (kind == 'py' and c.func.attr == 'randint') or any(k.arg == 'endpoint' and isinstance(k.value, ast.Constant) and k.value.value for k in c.keywords)
             want = -1 if inclusive else 0
+            # (iii) a NumPy bounded sampler is limited to int64: a bound that comes from an arbitrary-precision group order overflows
+            if kind == 'np':
+                big = _bigint_source(proj, fi, hi, c)
+                if big is not None:
+                    n += 1
+                    rep.violation('S5', fi.qual, f'`{ast.unparse(c)[:60]}`: the bound comes from `{big}`, an arbitrary-precision Python integer (group order / coset size, '
+                                  f'beyond 2^63 from n = 32 on); the NumPy sampler is limited to int64 and raises (or wraps) there - the pure-Python generator is not', m, c)
+                    continue
             # (i) index into container
             p = getattr(c, '_parent', None)
             if isinstance(p, ast.Subscript) and p.slice is c:
